@@ -75,6 +75,11 @@ def part_cases(thorough):
                             continue
                         yield {"ndim": ndim, "ncpu": ncpu, "counts": counts, "types": types, "pos": pos, "vel": vel,
                                "localseed": ls, "nstar_bytes": nsb, "units": ui}
+                        # the table restricted to some of its variables: still complete in rows
+                        if len(desc) >= 3 and len(types) in (1, 2) and (pos, vel, ls, nsb) == ("full", "full", 4, 4) and sum(counts) > 0:
+                            for sel in ("all-but-first", "first-off", "last-two"):
+                                yield {"ndim": ndim, "ncpu": ncpu, "counts": counts, "types": types, "pos": pos, "vel": vel,
+                                       "localseed": ls, "nstar_bytes": nsb, "units": ui, "select": sel}
 
 
 def part_expected(out):
@@ -107,6 +112,13 @@ def run_part(c, sortby=None):
         out.write(d)
         try:
             kw = {"sortby": {"part": sortby}} if sortby else {}
+            names_all = [n for n, _ in desc]
+            if c.get("select") == "all-but-first":
+                kw["select"] = {"part": names_all[1:], "mesh": False}
+            elif c.get("select") == "first-off":
+                kw["select"] = {"part": {names_all[0]: False}}
+            elif c.get("select") == "last-two":
+                kw["select"] = {"part": names_all[-2:]}
             ds, text = _load.load(d, out.nout, **kw)
         except Exception as e:
             import traceback
@@ -120,6 +132,10 @@ def run_part(c, sortby=None):
         return problems + [("no-part-group", {"groups": list(ds.keys())})]
     exp = part_expected(out)
     stored = [n for n, _ in desc]
+    if c.get("select") in ("all-but-first", "first-off"):
+        stored = stored[1:]
+    elif c.get("select") == "last-two":
+        stored = stored[-2:]
     vecs, scal = _load.expected_vector_groups(stored, ndim)
     ecols = {}
     for raw, cl in vecs:
